@@ -22,6 +22,7 @@ enum Op {
     TimeoutSleep(u64, u64),
     TimeoutPending(u64),
     Interval(u64, u8, Vec<u64>), // period, behaviour (0 burst, 1 delay, 2 skip), work after each tick
+    Debounce(u64, u64),          // only as a whole task: sleep(d0) that every self-message of the module resets to now + d (d = 2 mod 10)
 }
 
 // (module, task, op index, tag, value, now)   all times in ms
@@ -37,9 +38,20 @@ async fn poll_once<F: Future>(f: Pin<&mut F>) -> bool {
     std::future::poll_fn(|cx| Poll::Ready(f.as_mut().poll(cx).is_ready())).await
 }
 
-async fn run_task(m: usize, t: usize, prog: Vec<Op>) {
+async fn run_task(m: usize, t: usize, prog: Vec<Op>, mut rx: tokio::sync::mpsc::UnboundedReceiver<()>) {
     for (i, op) in prog.into_iter().enumerate() {
         match op {
+            Op::Debounce(d0, dr) => {
+                let s = sleep(ms(d0));
+                tokio::pin!(s);
+                loop {
+                    tokio::select! {
+                        biased;
+                        _ = &mut s => { log(m, t, i, "fired", 0); break; }
+                        Some(()) = rx.recv() => { s.as_mut().reset(SimTime::now() + ms(dr)); log(m, t, i, "reset", 0); }
+                    }
+                }
+            }
             Op::Sleep(d) => { sleep(ms(d)).await; log(m, t, i, "sleep", 0); }
             Op::SleepUntil(x) => { sleep_until(at(x)).await; log(m, t, i, "sleep_until", 0); }
             Op::PollDrop(d) => {
@@ -73,11 +85,18 @@ async fn run_task(m: usize, t: usize, prog: Vec<Op>) {
 }
 
 // the reference: what the property prescribes for one task (tasks only wait on timers, so they are independent)
-fn expect_task(m: usize, t: usize, prog: &[Op]) -> Vec<(usize, usize, usize, &'static str, i64, u64)> {
+fn expect_task(m: usize, t: usize, prog: &[Op], pings: &[u64]) -> Vec<(usize, usize, usize, &'static str, i64, u64)> {
     let mut out = vec![];
     let mut now = 0u64;
     for (i, op) in prog.iter().enumerate() {
         match op {
+            Op::Debounce(d0, dr) => {
+                // pings are at 5 mod 10, deadlines at 0 or 7 mod 10: never in the same instant
+                let mut deadline = now + d0;
+                for p in pings.iter() { if *p < deadline { out.push((m, t, i, "reset", 0, *p)); deadline = p + dr; } }
+                now = deadline;
+                out.push((m, t, i, "fired", 0, now));
+            }
             Op::Sleep(d) => { now += d; out.push((m, t, i, "sleep", 0, now)); }
             Op::SleepUntil(x) => { now = now.max(*x); out.push((m, t, i, "sleep_until", 0, now)); }
             Op::PollDrop(d) => { out.push((m, t, i, "poll_drop", (*d == 0) as i64, now)); }
@@ -102,17 +121,25 @@ fn expect_task(m: usize, t: usize, prog: &[Op]) -> Vec<(usize, usize, usize, &'s
     out
 }
 
-struct M { id: usize, progs: Vec<Vec<Op>> }
+struct M { id: usize, progs: Vec<Vec<Op>>, pings: Vec<u64>, txs: Vec<tokio::sync::mpsc::UnboundedSender<()>> }
 impl Module for M {
     fn at_sim_start(&mut self, _: usize) {
         for (t, p) in self.progs.iter().cloned().enumerate() {
             let m = self.id;
-            tokio::spawn(run_task(m, t, p));
+            let (tx, rx) = tokio::sync::mpsc::unbounded_channel();
+            self.txs.push(tx);
+            tokio::spawn(run_task(m, t, p, rx));
         }
+        // self-messages: activations of the module that are not timer wake-ups
+        for p in self.pings.iter() { schedule_in(Message::default(), ms(*p)); }
+    }
+    fn handle_message(&mut self, _: Message) {
+        for tx in self.txs.iter() { let _ = tx.send(()); }
     }
 }
 
 fn gen_prog(r: &mut dyn FnMut() -> u64) -> Vec<Op> {
+    if r() % 5 == 0 { return vec![Op::Debounce(10 + (r() % 5) * 10, 2 + (r() % 5) * 10)]; }
     let n = 1 + (r() % 5) as usize;
     let d = |r: &mut dyn FnMut() -> u64| (r() % 6) * 10;
     (0..n).map(|_| match r() % 9 {
@@ -135,23 +162,26 @@ fn main() {
     for _ in 0..count {
         let nmod = 1 + (rnd() % 2) as usize;
         let progs: Vec<Vec<Vec<Op>>> = (0..nmod).map(|_| (0..1 + rnd() % 3).map(|_| gen_prog(&mut rnd)).collect()).collect();
+        // self-messages at 5 mod 10 ms (never in the same instant as a timer), sorted, distinct
+        let pings: Vec<Vec<u64>> = (0..nmod).map(|_| { let mut v: Vec<u64> = (0..rnd() % 4).map(|_| 5 + (rnd() % 10) * 10).collect(); v.sort(); v.dedup(); v }).collect();
         LOG.lock().unwrap().clear();
         let mut sim = Sim::new(());
-        for (i, p) in progs.iter().enumerate() { sim.node(format!("m{}", i).as_str(), M { id: i, progs: p.clone() }); }
+        for (i, p) in progs.iter().enumerate() { sim.node(format!("m{}", i).as_str(), M { id: i, progs: p.clone(), pings: pings[i].clone(), txs: vec![] }); }
         let res = std::panic::catch_unwind(std::panic::AssertUnwindSafe(move || Builder::seeded(1).quiet().build(sim.freeze()).run()));
         let mut got = LOG.lock().unwrap().clone();
         let mut want = vec![];
-        for (m, ps) in progs.iter().enumerate() { for (t, p) in ps.iter().enumerate() { want.extend(expect_task(m, t, p)); } }
-        let end_want = want.iter().map(|e| e.5).max().unwrap_or(0);
+        for (m, ps) in progs.iter().enumerate() { for (t, p) in ps.iter().enumerate() { want.extend(expect_task(m, t, p, &pings[m])); } }
+        let end_want = want.iter().map(|e| e.5).chain(pings.iter().flatten().cloned()).max().unwrap_or(0);
         let key = |e: &(usize, usize, usize, &'static str, i64, u64)| (e.0, e.1);
         got.sort_by_key(key); // stable: keeps each task's own order
         want.sort_by_key(key);
-        let scen = format!("{:?}", progs);
+        let scen = format!("programs {:?} self_messages_at {:?}", progs, pings);
         let mut bad: Option<(&str, String, String)> = None;
         match &res {
             Err(_) => bad = Some(("run-panicked", "run() returns".into(), "panic".into())),
             Ok(Err(e)) => { if got == want { bad = Some(("run-reports-error", "Ok: every task finished".into(), format!("{:?}", e))); } }
-            Ok(Ok((_, t, _))) => { if got == want && t.as_millis() as u64 != end_want { bad = Some(("end-time", format!("{} ms", end_want), format!("{} ms", t.as_millis()))); } }
+            // the end time may exceed the last deadline: wake-up events of timers that were dropped or reset stay in the event set
+            Ok(Ok((_, t, _))) => { if got == want && (t.as_millis() as u64) < end_want { bad = Some(("end-time", format!(">= {} ms", end_want), format!("{} ms", t.as_millis()))); } }
         }
         if got != want {
             // first task whose own log differs from its reference
